@@ -96,6 +96,9 @@ Fixpoint tp_trace (st : tpool) (ops : list (nat * top)) : list val :=
       L [enc_tres o; vNs (rev (tp_fs st1)); vNs (cur_list st1 O)] :: tp_trace st1 r
   end.
 Definition run_tmppool (v : val) : val := L (tp_trace tp_init (map dec_top (unL v))).
+(* two pools that are alive at the same time (nested contexts): each is a pool of its own - own list, own files *)
+Definition run_two_tmppools (v : val) : val :=
+  match unL v with [a; b] => L [run_tmppool a; run_tmppool b] | _ => L [] end.
 (* [n, body ops] -> [flags inside after body, flags after exit] *)
 Definition run_filepool (v : val) : val :=
   match unL v with
